@@ -1,4 +1,4 @@
-CONSTANT Sets = {1, 2, 3, 4}
+CONSTANT Sets = {1, 2, 3, 4, 5}
 CONSTANT Gs = {1, 2, 3, 4, 6, 16, 0}
 CONSTANT Reps = 3
 INIT Init
